@@ -81,5 +81,14 @@ func ruleSizedFamilies(c *core.Ctx, poss []string, floor int) {
 			runMemberOpt(c, member{name: "sized integers as array elements " + pos, cfg: cfg, root: place(sp, pos)}, rules, 4000, true, checkRoot)
 		}
 	}
+	if floor <= 30 {
+		// the flag is a property of the RUN: an integer generated after a map-typed property (and after a nested object, an array, an
+		// enum) is sized like one generated first
+		for _, before := range []*fam.Spec{{Kind: "object", AddProps: "integer"}, {Kind: "object", AddProps: "string"}, {Kind: "array", Items: &fam.Spec{Kind: "string"}}, {Kind: "string", Enum: "strings"}} {
+			sp := &fam.Spec{Kind: "object", Props: []*fam.Prop{{Label: "a", Concrete: "aaFirst", Spec: before.Clone()},
+				{Label: "z", Concrete: "zzLast", Spec: &fam.Spec{Kind: "integer", Kw: []string{"minimum", "maximum"}, IntBounds: true}, Required: true}}}
+			runMemberOpt(c, member{name: "sized integer generated after " + before.String(), cfg: cfg, root: sp}, rules, 4000, true, checkRoot)
+		}
+	}
 	c.Floor("sized families", c.Counts["members"], floor, "sized-integer family members")
 }
